@@ -367,3 +367,31 @@ func vfH_C09_hdrframes() {
 	}
 	vfrt.Assert(frames >= 2 && len(b) == 0, "hdrframes/block-was-split")
 }
+
+//vf:assume C09-framesize: one SETTINGS frame carrying MAX_FRAME_SIZE = v (symbolic, 16384..2^24-1, what a conforming endpoint may announce) arrives from an endpoint that had announced an arbitrary valid value before (symbolic pre-state): the relay that sends towards that endpoint cuts its frames to v from then on - the value announced last, whether it raises or lowers the limit - and the relay of the other direction keeps its own limit
+
+//vf:harness property=C09 nopanic reach=framesize-raised,framesize-lowered
+func vfH_C09_framesize() {
+	off := false
+	var out, peerOut bytes.Buffer
+	r := newRelay(ClientToServer, "c", "s", nil, http2.NewFramer(&out, nil), &off)
+	peer := newRelay(ServerToClient, "s", "c", nil, http2.NewFramer(&peerOut, nil), &off)
+	r.output, peer.output = make(chan queuedFrame, 64), make(chan queuedFrame, 64)
+	r.peer, peer.peer = peer, r
+	earlier, own, v := vfrt.Uint32("announced-earlier"), vfrt.Uint32("own-limit"), vfrt.Uint32("announced-now")
+	for _, x := range []uint32{earlier, own, v} {
+		vfrt.Assume(x >= 16384)
+		vfrt.Assume(x <= 16777215)
+	}
+	peer.maxFrameSize, r.maxFrameSize = earlier, own
+	sf, err := http2.NewFramer(nil, bytes.NewReader(vfFrame(4, 0, 0, []byte{0, 5, byte(v >> 24), byte(v >> 16), byte(v >> 8), byte(v)}))).ReadFrame()
+	vfrt.Assert(err == nil && r.processFrame(sf) == nil, "framesize/settings-processed")
+	if v > earlier {
+		vfrt.Reach("framesize-raised")
+	}
+	if v < earlier {
+		vfrt.Reach("framesize-lowered")
+	}
+	vfrt.Assert(peer.maxFrameSize == v, "framesize/frames-towards-the-announcer-are-cut-to-the-value-announced-last")
+	vfrt.Assert(r.maxFrameSize == own, "framesize/other-direction-keeps-its-own-limit")
+}
